@@ -344,7 +344,7 @@ static Spec small_spec(Rng &r) {
 static void resize_data(RawHDU &h, size_t bytes) { h.data.resize(bytes, 0); }
 static Mut mutate(Rng &r, const Spec &s) {
 	Mut m; std::vector<RawHDU> hd = raw_from_spec(s); int nd = s.ndim();
-	int kind = (int)r.below(28);
+	int kind = (int)r.below(31);
 	if (kind >= 24 && kind <= 26) {
 		// a self-consistent file (NAXISn, ORDERn and the KNOTSn length all agree) whose knot count sits at or just below the admissible minimum 2*order+2
 		Spec t = s; int d = (int)r.below(nd); unsigned o = 1 + (unsigned)r.below(5); t.order[d] = o;
@@ -385,6 +385,18 @@ static Mut mutate(Rng &r, const Spec &s) {
 		else { long v = gv[r.below(4)]; if (d == 0) hd[0].cards.push_back(card_int("GCOUNT", v)); else set_card(hd[d], "GCOUNT", card_int("GCOUNT", v)); }
 		if (d == 0 && r.coin(0.5)) hd[0].cards.push_back(card_log("GROUPS", true));
 		m.name = "PCOUNT/GCOUNT-value"; break; }
+	case 28: { // a knot or extents extension declared with two axes (NAXIS1 as before, NAXIS2 = 1, 2 or 3: data resized to match or not)
+		size_t d = 1 + r.below(hd.size() - 1); long n1 = 0; card_long(hd[d], "NAXIS1", n1); long n2 = 1 + (long)r.below(3);
+		set_card(hd[d], "NAXIS", card_int("NAXIS", 2)); for (size_t ci = 0; ci < hd[d].cards.size(); ci++) if (card_key(hd[d].cards[ci]) == "NAXIS1") { hd[d].cards.insert(hd[d].cards.begin() + ci + 1, card_int("NAXIS2", n2)); break; }
+		if (r.coin(0.7)) hd[d].data.resize((size_t)n1 * (size_t)n2 * 8, 0);
+		m.name = "extension-with-two-axes"; break; }
+	case 29: { // an integer keyword whose value is a long string of garbage (cfitsio formats an error message around it)
+		int d = (int)r.below(nd); std::string k = s.legacy_single_order ? "ORDER" : "ORDER" + std::to_string(d); size_t len = 20 + r.below(45); std::string junk; for (size_t i = 0; i < len; i++) junk += (char)('A' + r.below(26));
+		int form = (int)r.below(3); set_card(hd[0], k, form == 0 ? card_str(k, junk) : form == 1 ? pad80(k + std::string(8 - std::min<size_t>(8, k.size()), ' ') + "= " + junk) : pad80(k + std::string(8 - std::min<size_t>(8, k.size()), ' ') + "= " + std::string(len, '9')));
+		m.name = "ORDERn-long-garbage-value"; break; }
+	case 30: { // self-consistent table with 10..20 dimensions of one coefficient each (cfitsio's pixel routines handle at most 9 axes)
+		Spec t; int nd2 = 10 + (int)r.below(11); for (int d = 0; d < nd2; d++) { t.order.push_back(0); t.knots.push_back({0.0 + d, 1.0 + d}); } t.coef.assign(1, 0.5f); t.flavor = "many-dims";
+		hd = raw_from_spec(t); m.name = "self-consistent-more-than-9-dimensions"; break; }
 	default: break;
 	}
 	m.bytes = raw_encode(hd);
@@ -505,8 +517,11 @@ static void run_C07(const Args &a, long cs) {
 	}
 	if (m.expect_valid && !accepted) note("structurally-valid-mutant-rejected:" + m.name.substr(0, m.name.find(':')));
 	count(accepted ? "accepted:" + m.name.substr(0, m.name.find(':')) : "rejected:" + m.name.substr(0, m.name.find(':')));
-	// CLI tools: exit status must be non-zero when the library rejects, and they must never die on a signal
+	// CLI tools: exit status must be non-zero when the library rejects, and they must never die on a signal.
+	// The tools read the file from disk: their verdict is held against the disk reader's (the memory reader additionally checks the declared
+	// data units against the buffer size and may reject a file the disk reader accepts).
 	if (a.extra.count("eval") && cs % 3 == 0) {
+		if (entry == 0 || entry == 3) { Table Td; phasef(std::string("read_fits (for the tools' expectation) of ") + m.name); try { Td.read_fits(path); accepted = true; } catch (std::exception &e) { accepted = false; } if (accepted) { std::string wf = wellformed(Td); if (!wf.empty()) viol("C07:read_fits:accepted-malformed:" + wf, mj); } }
 		int sig = 0; std::vector<std::string> av{path}; for (int d = 0; d < s.ndim(); d++) { char b[40]; snprintf(b, 40, "%.17g", s.knots[d][s.order[d]] + 0.3 * (s.knots[d][s.order[d] + 1] - s.knots[d][s.order[d]])); av.push_back(b); }
 		phase("photospline-eval"); int rc = run_tool(a.extra.at("eval"), av, sig); count("tool-runs:photospline-eval");
 		if (sig) viol("C07:photospline-eval:died-on-signal:" + std::to_string(sig), mj);
